@@ -252,6 +252,14 @@ def stepLine (d : DSt) (line : String) : DSt × String :=
         (d, s!"{showOut r.2} {bloomDump d} {tqDump d}")
       | none =>
         match ts with
+        | ["viewerr", k, kind] =>
+          -- View with a callback that fails: the callback's result never changes the cache
+          let r := seqStep d d.seq (.view (parseKey k) false)
+          let d := { d with seq := r.1 }
+          let o := match r.2 with
+            | .found n => if kind == "0" then s!"found:{n}" else s!"cb:{kind}"
+            | x => showOut x
+          (d, s!"{o} {bloomDump d} {tqDump d}")
         | ["enumplain", c, m] =>
           -- Blockstore.AllKeysChan: same pass-through, the error flag is not observable
           let r := seqStep d d.seq (.enum c.toNat! (m != "0"))
